@@ -6,7 +6,7 @@ from hypothesis import strategies as st
 from parso.python.tokenize import tokenize
 from parso.utils import parse_version_string
 
-from ..common import VERSIONS, crash_signature, digest, ref_split_lines, short
+from ..common import VERSIONS, case_int, crash_signature, digest, disturb, grammar, ref_split_lines, short
 from ..engine import Outcome, Prop
 from ..gen import text as T
 from ..gen import valid as V
@@ -202,6 +202,8 @@ class C10(Prop):
             return Outcome(excluded='reference token stream not self-consistent')
         trigger = FF_INDENT.search(code) is not None
         try:
+            if len(code) % 2:
+                disturb(grammar(v), case_int(code, v))      # process history: an earlier abandoned / aborted call (common.disturb)
             a, prefixes = parso_sig(code, v)
         except RecursionError:
             return Outcome(excluded='recursion-limit')
